@@ -42,6 +42,16 @@ def configs(tier, seed):
     add(3, ["cti", "bte"], [["cti"], ["bte"], ["cti", "bte", "lock"]], 8, [16, 8, 8])
     add(4, ["stall"], [["stall"], [], ["stall", "lock"], []], 16, [16] * 4)
     add(4, ["lock", "rty"], [["rty"], ["rty", "lock"], ["rty", "stall"], ["rty", "err"]], 8, [8, 16, 8, 16])
+    # every legal (data width, arbiter granularity, initiator granularity) combination (select fan-out ratios 1-8)
+    for dw in (8, 16, 32, 64):
+        for ag in (8, 16, 32, 64):
+            for ig in (8, 16, 32, 64):
+                if ag <= ig <= dw:
+                    add(2, ["lock"] if (dw + ag + ig) % 3 == 0 else [], [["lock"], []], ag, [ig, ag], dw)
+    # many initiators (request/grant index handling beyond one decimal digit)
+    add(11, [], [[]] * 11, 8, [8] * 11, 8)
+    if tier == "thorough":
+        add(16, ["lock"], [["lock"]] * 16, 8, [8] * 16, 8)
     # seeded random mixes
     n_rand = 12 if tier == "quick" else 120
     nmax = 4 if tier == "quick" else 5
